@@ -126,3 +126,7 @@ Proof. vm_compute. reflexivity. Qed.
    stix2/custom.py around user classes without their own __init__) *)
 Lemma live_custom_known : reg_known live_custom = true.
 Proof. vm_compute. reflexivity. Qed.
+
+(* stix2/exceptions.py as read by the generator: every __str__ / __repr__ / __init__ formats a constant template *)
+Lemma exceptions_templates_ok : exceptions_str_templates_constant = true.
+Proof. reflexivity. Qed.
